@@ -199,7 +199,7 @@ class Job:
         return s
 
     def prove(self, oid, conds, neg, replay=None, inputs=None, timeout=30, congruence=None,
-              known=None, extra_models=3, fallback=(), near=None):
+              known=None, extra_models=3, fallback=(), near=None, rewrite=()):
         """obligation: conds => not neg.  unsat: discharged.  sat: candidate, reported only if
         `replay` (module:function, evaluated on the unpatched repo code) reproduces it.
         inputs: {name: z3 term} whose model values are handed to the replay function."""
@@ -210,6 +210,12 @@ class Job:
             within = Pure.near([n for n in negs if isinstance(n, z3.ExprRef)], near) if near is not None else None
             conds += Pure.congruence(congruence, within)
         goal = z3.Or(*negs) if len(negs) != 1 else negs[0]
+        if rewrite:
+            # variables already shown equal to a term on this leaf are replaced by it (sound: the equality is a
+            # discharged obligation under the same path condition); spares the solver the substitution
+            rw = [(v, t) for v, t in rewrite]
+            conds = [z3.substitute(c, *rw) for c in conds]
+            goal = z3.substitute(goal, *rw)
         trivial = z3.is_false(z3.simplify(goal))
         s = self._solver(conds + [goal], timeout)
         t0 = time.time()
@@ -319,6 +325,37 @@ class Job:
             if r["id"] == oid and r["status"] == "violated":
                 r["status"] = "known"
                 r["finding"] = finding
+
+    def congruent(self, conds, names, goal_exprs, near=1, rewrite=(), timeout=5):
+        """congruence closure on demand: for pairs of applications of the same function near the goal, show (as a pure
+        arithmetic query) that their arguments are equal on this leaf and return the resulting equalities of the values"""
+        import itertools
+
+        within = Pure.near([g for g in goal_exprs if isinstance(g, z3.ExprRef)], near)
+        groups = {}
+        for (v, name, args) in Pure.tab.values():
+            if name in names and v.get_id() in within:
+                groups.setdefault((name, len(args)), []).append((v, args))
+        rw = [(v, t) for v, t in rewrite]
+        base = [z3.substitute(c, *rw) for c in conds] if rw else list(conds)
+        out = []
+        for lst in groups.values():
+            for (v1, a1), (v2, a2) in itertools.combinations(lst, 2):
+                pre = z3.And(*[x == y for x, y in zip(a1, a2)])
+                if rw:
+                    pre = z3.substitute(pre, *rw)
+                pre = z3.simplify(pre)
+                if z3.is_false(pre):
+                    continue
+                if not z3.is_true(pre):
+                    s = self._solver(base + [z3.Not(pre)], timeout)
+                    t0 = time.time()
+                    r = checked(s, timeout)
+                    self.solver_time += time.time() - t0
+                    if r != z3.unsat:
+                        continue
+                out.append(v1 == v2)
+        return out
 
     def feasible(self, conds, timeout=10):
         """is this leaf reachable at all under the extra constraints? (filter, not a vacuity verdict)"""
